@@ -1344,6 +1344,14 @@ func (li *layoutInterp) execCall(fn *ssa.Function, st *lpath, call *ssa.Call) []
 					return nil
 				}
 			}
+			if dst.region != "buf" && src.region == "in" && strings.HasPrefix(dst.region, "fresh#") {
+				// decoding: the temporary receives a segment of the input
+				st.mem["seg:"+dst.region] = src
+				if dst.len != nil && src.len != nil && (dst.len.Equal(src.len) || st.env.le(dst.len, src.len)) {
+					st.vals[call] = newInt(dst.len, w, true, "copied")
+					return nil
+				}
+			}
 			if dst.region != "buf" {
 				// remember what the temporary holds
 				if strings.HasPrefix(src.region, "f:") {
